@@ -421,9 +421,9 @@ fn empty_payload(rep: &mut Report, rng: &mut Rng) {
 }
 
 pub fn run(ctx: &Ctx, rep: &mut Report) {
-    let n_prod = ctx.n(1760, 30_000);
+    let n_prod = ctx.n(1760, 70_400);
     let n_hdr = 64u64; // the header space is split into 64 parts, all run in both tiers
-    let n_tr = ctx.n(520, 8_000);
+    let n_tr = ctx.n(520, 16_000);
     let n_empty = ctx.n(100, 2_000);
     for k in ctx.cases(n_prod + n_hdr + n_tr + n_empty) {
         rep.cur_case = k;
